@@ -145,7 +145,7 @@ impl Check for C03 {
                "stub": ["the storage device behind Read+Seek (SimReader with Cursor seek semantics)"]})
     }
     fn required_probes(&self, _tier: Tier) -> Vec<&'static str> {
-        vec!["cut_inside_header", "cut_inside_body", "cut_on_boundary", "fault.eintr", "fault.short_read", "permuted_pointer_message", "embedded_after_prefix"]
+        vec!["cut_inside_header", "cut_inside_body", "cut_on_boundary", "fault.eintr", "fault.short_read", "permuted_pointer_message", "embedded_after_prefix", "leading_bytes_look_like_size_prefix", "segmented_message_frames"]
     }
     fn budget_s(&self, tier: Tier) -> u64 {
         match tier {
@@ -163,7 +163,17 @@ impl Check for C03 {
             max_gates: if small { 40 } else { 1840 },
             t31_percent: if small { 70 } else { 55 },
         };
-        let s = build_stream(tape, &opts);
+        let mut s = build_stream(tape, &opts);
+        // the 12 bytes in front of every header are opaque; make the first four look like an LDM
+        // size prefix for exactly this stream now and then (a record wrapper must not be fooled)
+        if s.bytes.len() >= 28 && tape.draw(8) == 7 {
+            let v = (s.bytes.len() as i32 - 4) * if tape.draw(2) == 0 { 1 } else { -1 };
+            s.bytes[0..4].copy_from_slice(&v.to_be_bytes());
+            ctx.count("leading_bytes_look_like_size_prefix");
+        }
+        if s.segment_groups > 0 {
+            ctx.count("segmented_message_frames");
+        }
         let n = s.msgs.len();
         let has31 = s.msgs.iter().any(|m| m.mtype == 31);
         let hasfix = s.msgs.iter().any(|m| m.mtype != 31);
